@@ -204,4 +204,15 @@ def r3_push(ctx):
             ctx.ob("R3", "close_expanded_empty:name", has_subterm(r, lambda s: call_is(s, "Vec::split_off")), "the End event carries the split-off name", config=cfg)
 
 
-RULES = [("R1", r1_table), ("R2", r2_compare), ("R3", r3_push)]
+def r5_options_during_skip(ctx):
+    """End tags consumed inside read_to_end are matched by the same emit_end under the same options: read_to_end may
+    only touch trim_text_start (saved and restored); C12 R1 is re-evaluated here."""
+    import c12
+    n0 = len(ctx.obs)
+    c12.r1_restore(ctx)
+    for o in ctx.obs[n0:]:
+        o["site"] = "read_to_end:" + o["site"]
+        o["rule"] = "R5"
+
+
+RULES = [("R1", r1_table), ("R2", r2_compare), ("R3", r3_push), ("R5", r5_options_during_skip)]
